@@ -547,7 +547,7 @@ def r14_counter(ctx):
     counter_fn = None
     if ok:
         f = assigns[0].value.func
-        if isinstance(f, ast.Attribute) and isinstance(f.value, ast.Name) and f.value.id in ('SimEvent', 'self', 'cls'):
+        if isinstance(f, ast.Attribute) and unparse(f.value) in ('SimEvent', 'self', 'cls', 'type(self)', 'self.__class__'):
             counter_fn = ci.methods.get(f.attr)
     ok = ok and counter_fn is not None
     ctx.ob('R1.4', 'SimEvent.__init__:id-from-counter', ok, sample=f'SimEvent.__init__: {short(assigns[0]) if assigns else "no id assignment"}')
